@@ -73,7 +73,7 @@ def dyn(name, mode, nbulk, nops, kmax=5, vmax=3, base=2, bufl=1, idxl=2, eps=1, 
 def cpgm(name, kt, ctype, n, epslo=1, ephi=3, spread=200, sentinel=False, tiers=Q, timeout=900):
     d = dict(KT[kt]); d.update(CTYPE=ctype, N=n, EPSLO=epslo, EPSHI=ephi, SPREAD=spread, VERIF_VEC_CAP=n + 4, VERIF_SET_CAP=4)
     if sentinel: d.update(ALLOW_SENTINEL=1)
-    return dict(name=name, unit='c_iface.cpp', harness='h_cpgm.c', defs=d, narrow=16, roots=['@u_cpgm'], timeout=timeout, tiers=tiers,
+    return dict(name=name, unit='c_iface.cpp', harness='h_cpgm.c', defs=d, narrow=16, roots=['@u_cpgm'], timeout=timeout, tiers=tiers, profile_samples=8,
                 cbmc_extra=['--no-array-field-sensitivity'],
                 bounds='pgm_index_%s_{create,search,destroy}: exactly %d sorted keys = symbolic base (anywhere in the %s range) + offsets 0..%d, run-time epsilon '
                        'symbolic in %d..%d, queries base+0..%d%s' % (ctype, n, kt, spread, epslo, ephi, spread, '; reserved value allowed in the data (NULL path)' if sentinel else ''))
